@@ -14,7 +14,19 @@ use crate::{
     io::reader::num::{read_u8, read_uint7_as},
 };
 
-pub fn decode(mut src: &[u8], mut uncompressed_size: usize) -> io::Result<Vec<u8>> {
+// The chunks of a stripe are complete streams, i.e., a chunk can be striped again. This is the
+// number of times stripes can be nested, which limits the depth of the recursion.
+const MAX_STRIPE_DEPTH: usize = 8;
+
+pub fn decode(src: &[u8], uncompressed_size: usize) -> io::Result<Vec<u8>> {
+    decode_chunk(src, uncompressed_size, 0)
+}
+
+fn decode_chunk(
+    mut src: &[u8],
+    mut uncompressed_size: usize,
+    stripe_depth: usize,
+) -> io::Result<Vec<u8>> {
     use crate::codecs::rans_nx16::decode::bit_pack;
 
     let flags = read_flags(&mut src)?;
@@ -24,7 +36,7 @@ pub fn decode(mut src: &[u8], mut uncompressed_size: usize) -> io::Result<Vec<u8
     }
 
     if flags.is_striped() {
-        return stripe::decode(&mut src, uncompressed_size);
+        return stripe::decode(&mut src, uncompressed_size, stripe_depth);
     }
 
     let bit_pack_context = if flags.is_bit_packed() {
